@@ -25,7 +25,6 @@ history continues.
 """
 import asyncio
 import hashlib
-import itertools
 import json
 import random
 
@@ -240,6 +239,10 @@ async def _drive(rig: al.Rig, front: str, vdelay: int, history, soft: list):
                     detail = j
         rec['done'] = (kind, detail, t)
 
+    def how_finished(rec):
+        kind = rec['done'][0]
+        return rec.get('cause', kind) if kind == 'canceled' else kind
+
     def check(step_no):
         # post_loop
         if rig.loop_errors:
@@ -252,8 +255,11 @@ async def _drive(rig: al.Rig, front: str, vdelay: int, history, soft: list):
             exp = rec['model'].observe(rec['done'])
             if exp is None:
                 continue
+            cls = 'digest-interest' if SPECS[rec['k']][2] else 'plain-interest'
+            if rec.get('vanished'):
+                cls += ':its-entry-vanished-from-pit-earlier'
             if rec['done'] is None:
-                raise Hard(pfx + f'wrong-outcome:expected-{_kinds(exp)}-got-pending',
+                raise Hard(pfx + f'wrong-outcome:expected-{_kinds(exp)}-got-pending:{cls}',
                            f'Interest #{i} {SPECS[rec["k"]]} still pending at {loop.now_ms()}ms after step {step_no}; '
                            f'statement requires: {_fmt_states(exp)}')
             kind, detail, t = rec['done']
@@ -267,7 +273,11 @@ async def _drive(rig: al.Rig, front: str, vdelay: int, history, soft: list):
                 raise Hard(pfx + f'wrong-finish-time:{kind}',
                            f'Interest #{i} {SPECS[rec["k"]]} finished {kind}({detail}) at {t}ms; '
                            f'statement requires: {_fmt_states(exp)}')
-            raise Hard(pfx + f'wrong-outcome:expected-{_kinds(exp)}-got-{kind}',
+            if any(s[0] == 'F' and s[1] == kind for s in exp):
+                raise Hard(pfx + f'wrong-outcome:{kind}-with-wrong-' + ('packet' if kind == 'data' else 'reason'),
+                           f'Interest #{i} {SPECS[rec["k"]]} finished {kind}({detail}) at {t}ms after step {step_no}; '
+                           f'statement requires: {_fmt_states(exp)}')
+            raise Hard(pfx + f'wrong-outcome:expected-{_kinds(exp)}-got-{kind}:{cls}',
                        f'Interest #{i} {SPECS[rec["k"]]} finished {kind}({detail}) [{rec["raw"]}] at {t}ms after step '
                        f'{step_no}; statement requires: {_fmt_states(exp)}')
         # post_pit
@@ -285,26 +295,65 @@ async def _drive(rig: al.Rig, front: str, vdelay: int, history, soft: list):
                 continue
             owned.add(id(e))
             if rec['done'] is not None and id(e) in in_pit:
-                soft.append((pfx + f'finished-interest-still-in-pit:after-{rec["done"][0]}',
-                             f'Interest #{i} {SPECS[rec["k"]]} finished ({rec["done"][0]}) but its entry is still in '
+                soft.append((pfx + f'finished-interest-still-in-pit:after-{how_finished(rec)}',
+                             f'Interest #{i} {SPECS[rec["k"]]} finished ({how_finished(rec)}) but its entry is still in '
                              f'the pending-Interest table after step {step_no}'))
+            if rec['done'] is None and rec['model'].states == {('P',)} and id(e) not in in_pit:
+                rec['vanished'] = True
+                soft.append((pfx + 'pending-interest-missing-from-pit',
+                             f'Interest #{i} {SPECS[rec["k"]]} is pending (no matching packet, deadline ahead) but its '
+                             f'entry has disappeared from the pending-Interest table after step {step_no}'))
         for ide, e in in_pit.items():
             if e.future.done() and ide not in owned:
                 soft.append((pfx + 'pit-entry-with-done-future', f'entry with a completed future in the table after '
                                                                  f'step {step_no}'))
 
-    async def deliver(wire, what, tie):
+    def stale_label():
+        """root cause label, taken at the moment a delivery raised: which already-completed futures were still
+        reachable from the table (an entry left behind by a finished Interest, or the entry of an Interest whose
+        wait_for timer has just fired and which has not yet resumed)"""
+        live = {id(x) for x in rig.pit_entries()}
+        labels = set()
+        for rec in ints:
+            ent = rec['entry']
+            if ent is None or id(ent) not in live:
+                continue
+            if rec['done'] is not None:
+                labels.add('entry-left-after-' + how_finished(rec))
+            elif ent.future.cancelled():
+                labels.add('entry-of-interest-timing-out-this-turn')
+        left = sorted(x for x in labels if x.startswith('entry-left'))
+        return left[0] if left else (sorted(labels)[0] if labels else '')
+
+    async def deliver(wire, what, tie, op):
+        seen = {}
+
+        def sync_inject():
+            try:
+                rig.inject_now(wire)
+            except Exception:
+                seen['stale'] = stale_label()
+                raise
         try:
             if tie:
-                await al.same_turn(loop, lambda: rig.inject_now(wire))
+                await al.same_turn(loop, sync_inject)
             else:
-                await rig.inject(wire)
+                try:
+                    await rig.inject(wire)
+                except Exception:
+                    seen['stale'] = stale_label()
+                    raise
         except (al.HarnessError, al.Deadlock):
             raise
         except Exception as e:  # contract post_receive: ANY exception escaping _receive is a violation
             site = al.lib_site(e)
-            raise Hard(pfx + f'receive-raises:{type(e).__name__}@{site}',
-                       f'{type(e).__name__} escaped app._receive (raised in {site}) while delivering {what}')
+            cls = al.exc_label(e)
+            how = 'in the loop turn of a timer expiry' if tie else 'between timer expiries'
+            stale = seen.get('stale', '')
+            suffix = (':' + stale) if stale and cls == 'InvalidStateError' else ''
+            raise Hard(pfx + f'receive-raises:{cls}@{site}{suffix}',
+                       f'{cls} escaped app._receive (raised in {site}) while delivering {what} {how}'
+                       + (f' [{stale}]' if stale else ''))
 
     shut = False
     for step_no, (op, arg) in enumerate(history):
@@ -340,24 +389,29 @@ async def _drive(rig: al.Rig, front: str, vdelay: int, history, soft: list):
         elif op in ('D', 'XD'):
             for rec in ints:
                 rec['model'].apply((op, arg), t if op == 'D' else _next_timer_ms(loop, t), rec['fullname'], tie=(op == 'XD'))
-            await deliver(wires[arg], f'Data {DATAS[arg][0]}', op == 'XD')
+            await deliver(wires[arg], f'Data {DATAS[arg][0]}', op == 'XD', op)
         elif op in ('N', 'XN'):
             tgt = ints[arg]
             reason = NACK_REASONS[arg]
             for rec in ints:
                 rec['model'].apply((op, (tgt['fullname'], reason)), t if op == 'N' else _next_timer_ms(loop, t),
                                    rec['fullname'], tie=(op == 'XN'))
-            await deliver(al.nack_wire(tgt['wire'], reason), f'Nack({reason}) for Interest #{arg}', op == 'XN')
+            await deliver(al.nack_wire(tgt['wire'], reason), f'Nack({reason}) for Interest #{arg}', op == 'XN', op)
         elif op == 'W':
             await al.sleep_until(loop, t + WAIT)
         elif op == 'C':
             for i, rec in enumerate(ints):
                 rec['model'].apply(('C', i == arg), t, rec['fullname'])
+            if ints[arg]['done'] is None:
+                ints[arg]['cause'] = 'caller-cancel'
             ints[arg]['task'].cancel()
         elif op == 'S':
             for rec in ints:
                 rec['model'].apply(('S', None), t, rec['fullname'])
             shut = True
+            for rec in ints:
+                if rec['done'] is None:
+                    rec.setdefault('cause', 'shutdown')
             rig.app.shutdown()
         else:
             raise al.HarnessError(f'unknown op {op}')
@@ -377,7 +431,7 @@ async def _drive(rig: al.Rig, front: str, vdelay: int, history, soft: list):
         if rec['done'] is None:
             raise Hard(pfx + 'never-finishes', f'Interest #{i} {SPECS[rec["k"]]} has not finished {FINAL_WAIT}ms after '
                                                f'the last event')
-    if rig.pit_entries():
+    if rig.pit_entries() and not any('still-in-pit' in k for k, _ in soft):
         soft.append((pfx + 'pit-not-empty-at-quiescence', 'entries remain in the pending-Interest table when every '
                                                           'Interest has finished'))
     if not shut:
@@ -486,8 +540,21 @@ def case_id(front, vdelay, history) -> str:
     return hashlib.sha1(json.dumps([front, vdelay, history]).encode()).hexdigest()[:16]
 
 
+# witnesses of length 5-6 found by the thorough tier, kept in every tier so that the violation keys do not depend on it
+SEEDS = [
+    ('v2', 50, (('E', 0), ('D', 0), ('W', None), ('E', 0), ('W', None))),
+    ('v2', 50, (('E', 0), ('D', 0), ('W', None), ('E', 0), ('W', None), ('N', 1))),
+    ('v2', 50, (('E', 0), ('D', 0), ('W', None), ('E', 0), ('W', None), ('D', 0))),
+    ('v1', 0, (('E', 0), ('E', 0), ('C', 0), ('W', None), ('N', 1), ('W', None))),
+    ('v2', 10, (('E', 1), ('E', 2), ('XD', 1), ('W', None), ('C', 0), ('S', None))),
+]
+
+
 def cases(tier, seed, shard):
     k, n = shard
+    for i, c in enumerate(SEEDS):
+        if i % n == k:
+            yield c
     if tier == 'quick':
         ex_len, rnd = 4, 1500
     else:
@@ -527,9 +594,9 @@ def run(tier: str, seed: int, shard: tuple) -> dict:
                 '0/10/50 ms}, lifetime 40 ms, virtual clock; contracts checked after every step against a reference '
                 'model of the statement. distinct = sha1(config, history); non-trivial = an express followed by at '
                 'least one other event',
-        'bound': ('quick: all histories of length <= 4 over the reduced alphabet (4 specs, 3 Data) x 4 configurations '
+        'bound': ('quick: 5 seed histories + all histories of length <= 4 over the reduced alphabet (4 specs, 3 Data) x 4 configurations '
                   '+ 1500 random histories of length 5-6 per shard over the full alphabet' if tier == 'quick' else
-                  'thorough: all histories of length <= 5 over the reduced alphabet x 4 configurations + 60000 random '
+                  'thorough: 5 seed histories + all histories of length <= 5 over the reduced alphabet x 4 configurations + 60000 random '
                   'histories of length 5-6 per shard over the full alphabet (7 specs, 4 Data)'),
         'exhaustive': False,
         'samples': samples,
